@@ -233,16 +233,23 @@ def engine_objects():
                           (os.path.join(VERIF, "engine"),), vh) for s in srcs])
 
 
-def build_e1_harness(name, extra_flags=()):
-    """Harness TU (instrumented) + Galois objects (instrumented) + engine."""
+def build_e1_harness(name, extra_flags=(), extra_srcs=(), extra_inc=()):
+    """Harness TU (instrumented) + Galois objects (instrumented) + engine.
+    extra_srcs: further /repo sources (relative to REPO) compiled with the
+    same instrumentation; extra_inc: include dirs relative to VERIF."""
     src = os.path.join(VERIF, "harness", name + ".cpp")
     vh = verif_tree_hash(("engine",)) + header_hash() + harness_headers_hash()
+    inc = (os.path.join(VERIF, "engine"),) + tuple(
+        os.path.join(VERIF, d) for d in extra_inc)
+    for d in extra_inc:
+        vh += verif_tree_hash((d,))
     gobjs = galois_objects("tsan")
     hobj = compile_one(src, "tsan",
-                       tuple(extra_flags) + ("-fno-access-control",),
-                       (os.path.join(VERIF, "engine"),), vh)
+                       tuple(extra_flags) + ("-fno-access-control",), inc, vh)
+    xobjs = compile_many([(os.path.join(REPO, s), "tsan", tuple(extra_flags),
+                           inc, vh) for s in extra_srcs])
     eobjs = engine_objects()
-    return link(name, [hobj] + gobjs + eobjs, "tsan")
+    return link(name, [hobj] + xobjs + gobjs + eobjs, "tsan")
 
 
 def build_e2_harness(name, flavor="asan", extra_flags=(), with_galois=True,
